@@ -1,3 +1,19 @@
 import Nitime.Props.C19
 open Nitime.C19.Props
-#print axioms t0Ps_def
+#print axioms results_sorted_by_code
+#print axioms designEntry_eq_eventSum
+#print axioms design_times_h_is_planted
+#print axioms firSolve_solves
+#print axioms fir_exact_recovery
+#print axioms fir_recovers_planted
+#print axioms fir_current_sign
+#print axioms fir_negative_code_counterexample
+#print axioms fir_linear
+#print axioms planted_at_window
+#print axioms eta_exact_no_overlap
+#print axioms ets_zero
+#print axioms eta_linear
+#print axioms eta_repr_equiv
+#print axioms axis_starts_at_offset
+#print axioms fullRank_A
+#print axioms separated_B
